@@ -268,6 +268,13 @@ func (cr *ChunkReader) parseAndRemoveChunkInfo(p []byte) (int, error) {
 			}
 		}
 
+		// Read the underlying reader to its end: the layers below
+		// (request signature check) deliver their verdict when they
+		// reach the end of the body, and it must not be lost
+		if _, err := io.Copy(io.Discard, cr.r); err != nil {
+			return 0, err
+		}
+
 		return 0, io.EOF
 	}
 
